@@ -133,7 +133,7 @@ def run(chk):
         ref = gen.repertoire(rng, 25, minlen=5, maxlen=8, allow_empty=False)
         qs = [gen.mutate(rng, rng.choice(ref), AA, rng.randint(0, 2)) or "C" for _ in range(nq)]
         qs[nq - 1] = ref[0]
-        qs[520] = ref[0]                 # duplicates on both sides of a block boundary
+        qs[min(520, nq - 2)] = ref[0]    # duplicates on both sides of a block boundary
         qs[8] = ref[0]
         add_symdel(f"many-queries-{nq}", ref, qs, rng.choice([1, 2]), model=False)
     # all strings of a pool against themselves
